@@ -395,10 +395,23 @@ def run(ctx: Ctx) -> None:
     ctx.log(f"states={r['states']} transitions={r['transitions']} depth={r['depth']} violations={len(r['violations'])}")
     for v in r["violations"]:
         ctx.violation(v)
+    # the search operators and the real loop on the collision specs (computed repetitions, generators, equality repair, ...):
+    # inputs unchanged, bookkeeping of inputs / results / emitted solutions / population consistent, no node shared
+    from mc import evo
+    names = list(evo.cat())
+    b = evo.closure_explore(ctx, names, {"C10"}, depth=2, frontier_cap=8 if ctx.quick else 16, run_cap=60 if ctx.quick else 200)
+    ctx.log(f"closure: {b}")
+    c = evo.loop_explore(ctx, names, {"C10"}, bound=1 if ctx.quick else 2, cap=800 if ctx.quick else 8000)
+    ctx.log(f"loop: { {k: v for k, v in c.items() if k != 'choice_points_default'} }")
     ctx.coverage.update(
-        states=r["states"], transitions=r["transitions"], traces_validated_against_impl=r["transitions"],
-        samples=r["samples"], exhaustive=not r["capped"], depth=depth, alphabet=len(alpha),
+        states=r["states"] + b["trees"] + c["executions"], transitions=r["transitions"] + b["executions"] + c["executions"],
+        traces_validated_against_impl=r["transitions"] + b["executions"] + c["executions"],
+        samples=r["samples"], exhaustive=not r["capped"], depth=depth, alphabet=len(alpha), operator_closure=b, loop=c,
         rule="state = forest of live trees reached by a history of operations (canonical form: full structural snapshot of every tree incl. "
-             "which hash caches are warm); every transition re-checks the bookkeeping invariant on every live tree and that operands of non-mutating operations are unchanged",
+             "which hash caches are warm); every transition re-checks the bookkeeping invariant on every live tree and that operands of non-mutating operations are unchanged; "
+             "in addition every application of mutate / crossover / repair (all resolutions) on the trees of the collision specs, and every execution of the real loop within the deviation bound, "
+             "is checked for unchanged inputs, consistent bookkeeping of inputs, results, emitted solutions and population, and for node objects shared between result and inputs",
     )
+    if b["capped_expansions"] or b["frontier_capped"] or c["capped"]:
+        ctx.cap(f"operator closure: {b['capped_expansions']} expansions capped, {b['frontier_capped']} reachable trees not expanded; loop: deviation bound {1 if ctx.quick else 2}, {c['capped']} second-level prefixes not run")
     ctx.assumptions += ["after `adopt` (add_child of a node that is still listed in another tree) the donor's links are not judged: sharing a node between two parents is a misuse, not a property violation"]
